@@ -20,6 +20,36 @@ Proof.
     f_equal; [apply (Z.mod_unique off b q r)|apply (Z.div_unique off b q r)]; lia.
 Qed.
 
+Lemma natc_cases (x : Z) (n : nat) :
+  (x <= 0 /\ natc x 0 (zn n) = 0%nat) \/ (0 < x < zn n /\ zn (natc x 0 (zn n)) = x) \/
+  (zn n <= x /\ natc x 0 (zn n) = n).
+Proof. unfold natc, clampZ, zn. lia. Qed.
+
+(* the index arithmetic of normalize_inter *)
+Lemma inter_shape (lo : Z) (rsz asz : nat) :
+  let res_end := natc (- lo) 0 (zn rsz) in
+  let res_start := natc (zn asz - lo) 0 (zn rsz) in
+  let a_end := natc lo 0 (zn asz) in
+  let a_start := natc (zn rsz + lo) 0 (zn asz) in
+  let a_out := (asz - a_start)%nat in
+  let mid := (a_start - a_end)%nat in
+  ((a_start <= asz)%nat /\ (mid <= a_start)%nat /\ (mid <= res_start)%nat /\
+   (res_start - mid = res_end)%nat /\ (res_start <= rsz)%nat /\ (res_end <= rsz)%nat) /\
+  ((0 < mid)%nat -> zn a_out + zn res_start = zn asz - lo) /\
+  ((0 < res_end)%nat -> lo < 0 /\ (a_out + mid = asz)%nat /\
+                   zn (Z.to_nat (- lo) - rsz) + zn res_end = - lo) /\
+  (forall i, (res_start <= i < rsz)%nat -> zn asz - lo - 1 - zn i < 0).
+Proof.
+  intros res_end res_start a_end a_start a_out mid. unfold mid, a_out.
+  destruct (natc_cases (-lo) rsz) as [[? E1]|[[? E1]|[? E1]]];
+  destruct (natc_cases (zn asz - lo) rsz) as [[? E2]|[[? E2]|[? E2]]];
+  destruct (natc_cases lo asz) as [[? E3]|[[? E3]|[? E3]]];
+  destruct (natc_cases (zn rsz + lo) asz) as [[? E4]|[[? E4]|[? E4]]];
+  fold res_end in E1; fold res_start in E2; fold a_end in E3; fold a_start in E4;
+  clearbody res_end res_start a_end a_start; unfold zn in *;
+  (split; [lia|split; [lia|split; [lia|intros i Hi; lia]]]).
+Qed.
+
 Section Inter.
 Variable b : Z.
 Hypothesis Hb : 1 <= b <= 62.
@@ -99,28 +129,22 @@ Proof.
   set (mid := (a_start - a_end)%nat).
   set (V := vin a lsh).
   (* shape arithmetic *)
-  assert (Hshape : (a_start <= asz)%nat /\ (mid <= a_start)%nat /\ (mid <= res_start)%nat /\
-                   (res_start - mid = res_end)%nat /\ (res_start <= rsz)%nat /\ (res_end <= rsz)%nat)
-    by (unfold a_start, mid, a_end, res_start, res_end, natc, clampZ, zn; lia).
+  destruct (inter_shape lo rsz asz) as (Hshape & Hpos_mid & Htop & Hzero).
+  fold res_end res_start a_end a_start a_out mid in Hshape, Hpos_mid, Htop, Hzero.
   destruct Hshape as (S1 & S2 & S3 & S4 & S5 & S6).
-  assert (Hpos_mid : (0 < mid)%nat -> zn a_out + zn res_start = zn asz - lo)
-    by (unfold a_out, a_start, mid, a_end, res_start, res_end, natc, clampZ, zn; lia).
-  assert (Htop : (0 < res_end)%nat -> lo < 0 /\ (a_out + mid = asz)%nat /\
-                   zn (Z.to_nat (- lo) - rsz) + zn res_end = - lo)
-    by (unfold a_out, a_start, mid, a_end, res_start, res_end, natc, clampZ, zn; lia).
-  assert (Hzero : forall i, (res_start <= i)%nat -> zn asz - lo - 1 - zn i < 0)
-    by (unfold a_out, a_start, mid, a_end, res_start, res_end, natc, clampZ, zn; lia).
   (* phases *)
   rewrite (carry_phase_car b Hb lsh a asz a_out Hl Ha).
-  unfold asz at 1. rewrite car_low by (unfold a_out, asz; lia). fold V.
+  pose proof (car_low lsh a a_out ltac:(unfold a_out, asz; lia)) as CL. fold asz V in CL.
+  rewrite CL. clear CL.
   destruct (zero_range_spec r0 res_start rsz) as [Z1 Z2].
   set (r1 := zero_range r0 res_start rsz) in *.
   assert (Hc0 : Z.abs (car b V 0 a_out) <= 2 ^ 62) by (apply car_vin_hr; auto).
   destruct (mid_phase_spec b Hb true lsh a res_start a_start mid r1 (car b V 0 a_out) Hl Ha
               ltac:(discriminate) Hc0 S3) as (M1 & M2 & M3).
   destruct (mid_phase 64 true b lsh a res_start a_start mid (r1, car b V 0 a_out)) as [r2 c2].
-  cbn [fst snd] in M1, M2, M3.
-  rewrite (car_mid lsh a a_start a_out mid S1 eq_refl S2) in M1. fold V in M1.
+  cbn [fst snd] in M1, M2, M3. cbv beta iota.
+  pose proof (car_mid lsh a a_start a_out mid S1 eq_refl S2) as CM. fold V in CM.
+  rewrite CM in M1. clear CM.
   assert (Hc2 : Z.abs c2 <= 2 ^ 62) by (rewrite M1; apply car_vin_hr; auto).
   set (gap := (Z.to_nat (- lo) - rsz)%nat) in *.
   set (c3 := if lo <? 0 then gap_phase 64 b gap c2 else c2).
@@ -131,17 +155,17 @@ Proof.
   destruct (top_phase_spec b Hb true lsh res_end r2 c3 Hl ltac:(discriminate) Hc3b) as [T1 T2].
   set (out := fst (top_phase 64 true b lsh res_end (r2, c3))) in *.
   split; [rewrite T1, M2; exact Z1|].
-  intros i Hi. rewrite T2, T1, M2, Z1.
+  intros i Hi. rewrite T2, M2, Z1.
   destruct (Nat.ltb_spec i res_end) as [Htp|Htp].
   - (* top limbs: carries only *)
-    destruct (Nat.ltb_spec i (length r0)) as [_|]; [|fold rsz in *; lia]. cbn [andb].
+    destruct (Nat.ltb_spec i (length r0)) as [_|]; [|unfold rsz in *; lia]. cbn [andb].
     destruct (Htop ltac:(lia)) as (Hlo & Ham & Hg).
     rewrite Hc3. destruct (Z.ltb_spec lo 0) as [_|]; [|lia].
     rewrite M1, Ham. unfold V, asz. rewrite car_above.
     rewrite (dig_above lsh a (length a + gap) (res_end - 1 - i)) by (try lia; intros; lia).
     rewrite dgz_nonneg by (fold asz; unfold zn in *; lia).
     f_equal. fold asz. unfold zn in *. lia.
-  - rewrite M3, M2, Z1. fold rsz.
+  - rewrite M3, Z1. fold rsz.
     destruct (Nat.ltb_spec i res_start) as [Hmd|Hmd].
     + (* limbs computed from a *)
       destruct (Nat.leb_spec (res_start - mid) i) as [_|]; [|lia].
